@@ -420,6 +420,25 @@ pub fn gen_probes(rng: &mut Rng, keys: &[Vec<u8>], budget: usize) -> Vec<Vec<u8>
         let l = rng.urange(0, 10);
         out.push(rng.bytes(l));
     }
+    // probes far longer than the stored keys: a stored key (or a prefix of one) padded to lengths on
+    // and next to multiples of 256 and 65536, where a length kept in a narrower integer wraps
+    // (side stream: the main stream stays as it was)
+    let mut side = rng.clone();
+    if !keys.is_empty() {
+        for _ in 0..(budget / 40).clamp(2, 24) {
+            let k = &keys[side.usize_below(keys.len())];
+            let stem = if side.chance(1, 4) && !k.is_empty() { k[..side.urange(0, k.len() - 1)].to_vec() } else { k.clone() };
+            let base = *side.pick(&[256usize, 256, 512, 768, 1024, 65536]);
+            let l = base + side.urange(0, 9) - 1;
+            if l <= stem.len() {
+                continue;
+            }
+            let fill = *side.pick(&[0x00u8, 0x00, 0xFF, 0x61]);
+            let mut q = stem;
+            q.resize(l, fill);
+            out.push(q);
+        }
+    }
     out
 }
 
